@@ -440,7 +440,7 @@ theorem memo_pushed_keys (tab : List Decl) : ∀ (fuel : Nat) (path : List (Nat 
     | some k =>
       simp only [hk] at hf hx ⊢
       by_cases hnp : path.contains k = true
-      · simp [hnp] at hf
+      · rw [if_pos hnp] at hf; simp at hf
       · have hnp' : path.contains k = false := by simpa using hnp
         simp only [hnp', Bool.false_eq_true, if_false] at hf hx ⊢
         cases hd : findDecl tab k with
@@ -562,7 +562,7 @@ theorem memo_nodup_invariant (tab : List Decl) (hw : WfTab tab) : ∀ (fuel : Na
           simp only [List.mem_map] at hs
           obtain ⟨sup, hsup, rfl⟩ := hs
           obtain ⟨st, m, i, ts, rfl⟩ := hw k d hd sup hsup
-          exact ⟨st, m, i, _, by simp [subst]⟩
+          exact ⟨st, m, i, substL (d.tparams.zip (targsOf t)) ts, by simp [subst]⟩
 
 /-- **No duplicates.** Unless `is_cyclic` is set (or the model's budget ran out) the list collected
 by the memoised walk contains no two types that are the same type. -/
